@@ -511,8 +511,32 @@ impl Link {
         self.state_a_b = State::Hold;
         self.state_b_a = State::Hold;
 
+        // A message whose latency has elapsed but which has not been handed
+        // to its host yet is still in flight: hold it as well.
+        self.recall_deliverable();
+
         for sent in &mut self.sent {
             sent.status = DeliveryStatus::Hold;
+        }
+    }
+
+    /// Put the messages that are ready but not yet delivered back at the head
+    /// of the in-flight queue (lower destination address first, each
+    /// destination's messages in order).
+    fn recall_deliverable(&mut self) {
+        let mut dsts: Vec<IpAddr> = self.deliverable.keys().copied().collect();
+        dsts.sort();
+        let mut ready = Vec::new();
+        for dst in dsts {
+            ready.extend(self.deliverable[&dst].drain(..));
+        }
+        for envelope in ready.into_iter().rev() {
+            self.sent.push_front(Sent {
+                src: envelope.src,
+                dst: envelope.dst,
+                status: DeliveryStatus::DeliverAfter(self.now),
+                protocol: envelope.message,
+            });
         }
     }
 
@@ -531,7 +555,12 @@ impl Link {
         self.state_a_b = State::ExplicitPartition;
         self.state_b_a = State::ExplicitPartition;
 
+        // Everything in flight is lost, including what is ready but has not
+        // been handed to its host yet.
         self.sent.clear();
+        for ready in self.deliverable.values_mut() {
+            ready.clear();
+        }
     }
 
     fn partition_oneway(&mut self, from: IpAddr, to: IpAddr) {
@@ -542,6 +571,9 @@ impl Link {
         }
 
         self.sent.retain(|sent| sent.src.ip() != from);
+        if let Some(ready) = self.deliverable.get_mut(&to) {
+            ready.clear();
+        }
     }
 
     fn repair_oneway(&mut self, from: IpAddr, to: IpAddr) {
